@@ -74,6 +74,11 @@ Definition pay_gas_fee (e : fenv) (b : bals) (from : acct) (gas : Z) : option ba
 Definition pay_left (e : fenv) (b : bals) (from : acct) : bals :=
   pay_admins e (bset b from 0) (b from).
 
+(** the ORDER matters when the sender is itself an admin: emptying the account after the admins
+    were paid (not what the code does) wipes the share the sender was just credited *)
+Definition pay_left_zero_last (e : fenv) (b : bals) (from : acct) : bals :=
+  bset (pay_admins e b (b from)) from 0.
+
 (** total credited to the admins by one [payAdmins] call *)
 Definition credits (e : fenv) (fees : Z) : Z :=
   Z.of_nat (length (admins e)) * (fees / Z.of_nat (length (admins e))).
@@ -148,11 +153,18 @@ Definition conserve_b (dom : list acct) (b b' : bals) (grants : Z) : bool :=
   sumb dom b' <=? sumb dom b + grants.
 Definition nonneg_b (dom : list acct) (b : bals) : bool :=
   forallb (fun a => 0 <=? b a) dom.
+(** fees reach the admins: what leaves the books of a block ([ntx] transactions, [n] admins) is at
+    most the rounding loss of its transactions, n - 1 units each - on every fee path, the
+    whole-balance fallback of a sender who is itself an admin included *)
+Definition loss_b (dom : list acct) (b b' : bals) (grants : Z) (n ntx : nat) : bool :=
+  sumb dom b + grants - sumb dom b' <=? (Z.of_nat n - 1) * Z.of_nat ntx.
 
 Definition conserve (dom : list acct) (b b' : bals) (grants : Z) : Prop :=
   sumb dom b' <= sumb dom b + grants.
 Definition nonneg_on (dom : list acct) (b : bals) : Prop :=
   forall a, In a dom -> 0 <= b a.
+Definition loss_bound (dom : list acct) (b b' : bals) (grants : Z) (n ntx : nat) : Prop :=
+  sumb dom b + grants - sumb dom b' <= (Z.of_nat n - 1) * Z.of_nat ntx.
 
 (** ------------------------------------------------------------------------------------
     judge: one block of an implementation trace.
